@@ -2,6 +2,7 @@ package c22
 
 import (
 	"fmt"
+	"math"
 	"strings"
 	"testing"
 
@@ -120,7 +121,11 @@ func relation(bm []bool, w write) string {
 func check(t *filetracker.TFile, bm []bool, hi int64, queries *int64) (string, string) {
 	get := func(i int64) bool { return i >= 0 && i < int64(len(bm)) && bm[i] }
 	for o := int64(0); o <= hi+2; o++ {
-		for _, L := range []int64{1, 2, hi + 3} {
+		// "as much as possible" requests: lengths up to the largest int64, and offset+length beyond it
+		for _, L := range []int64{1, 2, hi + 3, math.MaxInt64 - o, math.MaxInt64 - o + 1, math.MaxInt64} {
+			if L < 1 {
+				continue
+			}
 			*queries++
 			n, mod := t.VerifGetRangeToRead(o, L)
 			if mod != get(o) {
@@ -132,7 +137,11 @@ func check(t *filetracker.TFile, bm []bool, hi int64, queries *int64) (string, s
 			if n < 1 || n > L {
 				return "bad-length", fmt.Sprintf("getRangeToRead(%d,%d) returned length %d", o, L, n)
 			}
-			for i := o; i < o+n; i++ {
+			end := o + n
+			if end < o || end > int64(len(bm))+2 {
+				end = int64(len(bm)) + 2 // everything beyond the last write is base data
+			}
+			for i := o; i < end; i++ {
 				if get(i) != get(o) {
 					return "range-crosses-boundary", fmt.Sprintf("getRangeToRead(%d,%d)=(%d,%v) crosses a modified/unmodified boundary at %d", o, L, n, mod, i)
 				}
